@@ -322,6 +322,7 @@ func runC09(c *an.Ctx) {
 		case r0 == recv+".h":
 			nQuorum++
 			okR := strings.HasPrefix(r1, softMap+"["+hashT+"]") && fs.Has(*quorum) && fs.Has(an.NotB("IsZero("+recv+".h)"))
+			checkEveryAnswerTallied(c, "C09.b", head)
 			c.Check(okR, "C09.b", "quorum-return-pair", "the quorum return yields the agreed header together with the soft error recorded for exactly that header, only once the quorum is reached", head, r, "returns ("+r0+", "+r1+")", fs)
 		case sh == "S:header.ErrNotFound":
 			nEmpty++
